@@ -424,6 +424,54 @@ def check_reductions(ctx, num=6):
     ctx.count_min("empty-undefined reductions in simulator.py", n_sites, 3)
 
 
+def check_divisions(ctx, num=6):
+    """K13 (zero division): in the simulator's loop and statistics every divisor is a configuration value of a valid configuration
+    (duration, ticks_per_second — positive), a non-zero literal, the pools' total RAM, or is known non-zero by a guard.  A divisor
+    *computed* from the run (a tick count, a number of results, int(duration * ticks_per_second)) can be zero — a duration shorter
+    than one tick gives zero ticks."""
+    P = ctx.P
+    m = P.mod(SIM)
+    from ..util import view_funcs
+    n = 0
+    for f in view_funcs(P, m):
+        if f.name not in ("run_simulator", "compute_pipeline_stats"):
+            continue
+        g = cfg_of(f, subst_env=False)
+        env = single_defs(f)
+        params = set(f.params())
+        for b in own_nodes(f.node):
+            if not (isinstance(b, ast.BinOp) and isinstance(b.op, (ast.Div, ast.FloorDiv, ast.Mod))):
+                continue
+            if isinstance(b.op, ast.Mod) and isinstance(b.left, (ast.Constant, ast.JoinedStr)) and isinstance(getattr(b.left, "value", None), str):
+                continue   # string formatting
+            n += 1
+            den = norm.subst(b.right, env)
+
+            def config_positive(e) -> bool:
+                if isinstance(e, ast.Constant) and isinstance(e.value, (int, float)) and not isinstance(e.value, bool):
+                    return e.value != 0
+                if isinstance(e, ast.Subscript) and isinstance(e.slice, ast.Constant) and e.slice.value in ("duration", "ticks_per_second") and isinstance(e.value, ast.Name):
+                    return True
+                if isinstance(e, ast.Name) and e.id in params and e.id in ("ticks_per_second", "duration"):
+                    return True
+                if isinstance(e, ast.Call) and norm.call_name(e) in ("get_total_ram_gb",) and not e.args:
+                    return True
+                if isinstance(e, ast.Call) and norm.call_name(e) in ("float", "int") and len(e.args) == 1 and norm.call_name(e) == "float":
+                    return config_positive(e.args[0])
+                return False
+            st = b
+            while not isinstance(st, ast.stmt):
+                st = parent(st)
+            t = norm.U(den)
+            fs = g.facts_at(st)
+            ok = config_positive(den) or norm.entails(fs, ("cmp", "<", "0", t)) or norm.entails(fs, norm.mk_cmp("!=", "0", t)) \
+                or norm.entails(fs, ("cmp", "<", "0", norm.U(b.right))) or norm.entails(fs, norm.mk_cmp("!=", "0", norm.U(b.right)))
+            ctx.ob(num, "K13", "a divisor in the simulator's loop / statistics is a positive configuration value or is known to be non-zero "
+                   "(a quantity computed from the run — e.g. the number of ticks of a very short run — can be 0)", ok, f, b,
+                   construct=f"divisor {norm.U(b.right)}", detail=f"{norm.U(b)}; divisor resolves to {t}")
+    ctx.count_min("divisions in run_simulator / compute_pipeline_stats", n, 3)
+
+
 def check_executor_aggregates(ctx, num=7):
     P = ctx.P
     for meth, attr, op in (("num_completed", "num_completed", "sum"), ("container_tick_times", "container_tick_times", "concat")):
@@ -476,6 +524,7 @@ def run(ctx):
     sm2 = check_sweep(ctx, sm, exc, 4)
     check_tail(ctx, sm, 5)
     check_reductions(ctx, 6)
+    check_divisions(ctx, 6)
     c09.check_success_iff_no_error(ctx, 7)
     check_executor_aggregates(ctx, 7)
     # "an uncontended pipeline finishes in exactly the ticks its operators need": the tick plan and count-down of C05
